@@ -739,6 +739,19 @@ impl<'a, 'w> VariantSerializer<'a, 'w> {
     ensures final(self).num == old(self).num, final(self).variant_index == old(self).variant_index, *final(self).se == *old(self).se, *final(final(self).se) == *final(old(self).se),
         r is Ok ==> final(self).buf@ == old(self).buf@ + enc(*value, plain_mode()),      // [C03.enum.variant-fields-in-order] the fields of a tuple / struct variant are buffered in order, each with its own constructor
 //@@ end
+//@@ fn file=serde_amqp/src/ser.rs impl=`~ser::SerializeTupleVariant for VariantSerializer<'a, W>` name=end id=VariantSerializer::end dropuses
+//@@ qmark
+//@@ ret Result<(), Error>
+//@@ subst `let kv_buf = BytesMut::new();` => `let mut kv_buf: Vec<u8> = Vec::new();` rule=R13
+//@@ subst `let mut writer = kv_buf.writer();` => `let mut writer = &mut kv_buf;` rule=R13
+//@@ subst `let buf = writer.into_inner().freeze();` => `let buf = kv_buf;` rule=R13
+//@@ subst `ser::Serialize::serialize(&self.variant_index, &mut key_se)?` => `u32_as_val(&self.variant_index).serialize(&mut key_se)?` rule=R28
+//@@ spec
+    ensures *final(final(self.se).writer) == *final(old(self.se).writer),
+        final(self.se).non_native_type == old(self.se).non_native_type, final(self.se).seq_type == old(self.se).seq_type, final(self.se).struct_encoding@ == old(self.se).struct_encoding@, final(self.se).is_array_elem == old(self.se).is_array_elem,
+        r is Ok && old(self.se).is_array_elem is False ==> final(self.se).writer@ == old(self.se).writer@
+            + map_enc(2, u32_enc(self.variant_index, IsArrayElement::False) + list_enc(self.num as int, self.buf@, IsArrayElement::False), IsArrayElement::False),       // [C03.enum.tuple-variant-is-index-and-field-list] [C05.enum.tuple-variant-is-index-and-field-list] a tuple / struct variant is ONE two-item map: the variant's index, then the list of its fields (every field buffered by serialize_field, counted as announced) -- what deserialize_enum / tuple_variant (unit DEENTRY) read back; the second writer (a BytesMut in the code) is a byte buffer here. Nothing is claimed for a variant that is itself an array element: the inner list is then written under the enclosing array position (user enums only; section 8)
+//@@ end
 }
 
 } // verus!
